@@ -19,8 +19,8 @@ CORR_IMPORTS = ['QV.C01.Model', 'QV.C01.Spec', 'QV.C01.Corr']
 CHECK_CORR = 'check_corr'
 CHECK_SPEC = 'check_spec'
 SHARD = 120
-RULE = ('template trees over 12 node kinds (constant, table hold/jump/linear, point, atomic multi-channel, atomic '
-        'arithmetic, sequence, repetition, for-loop, mapping, time reversal, parallel channel, scalar arithmetic), '
+RULE = ('template trees over 13 node kinds (constant, table hold/jump/linear, point, affine function, atomic '
+        'multi-channel, atomic arithmetic, sequence, repetition, for-loop, mapping, time reversal, parallel channel, scalar arithmetic), '
         'nesting <= 5 (quick) / 7 (thorough), 1-3 channels (string and integer ids incl. 0), dyadic parameter values, '
         'parameterised times / voltages / counts / ranges, parameter mappings incl. shadowing and loop-index routing, '
         'channel renaming and dropping inside the tree and at the top, for-loops with empty / single / negative-step '
@@ -42,6 +42,7 @@ ASSUMPTIONS = [
     'generated numbers are dyadic with small numerators so that numpy float arithmetic is exact',
     'checked_int_cast tolerance (1e-6) is outside the generated domain',
     'no zero-length linear table segment (tbl_guard); channel mappings injective on the complete mapping',
+    'FunctionPT: affine expressions a + b*t with positive duration only',
     'measurements, parameter constraints, to_single_waveform, volatile parameters are not exercised (C02/C03/C05/C15)',
 ]
 
@@ -582,19 +583,21 @@ MANIFEST = {
                   'built by the operational model of create_program plays the independent denotation (C01_denotes, proved '
                   'in full): every composite node kind, any nesting of scalar arithmetic (transformation composition '
                   'lemma), every modelled atom kind (ConstantPT, TablePT with entry de-duplication / constant detection / '
-                  'hold / jump / linear, PointPT, AtomicMultiChannelPT, ArithmeticAtomicPT) incl. enclosing '
+                  'hold / jump / linear, PointPT, AtomicMultiChannelPT, ArithmeticAtomicPT, affine FunctionPT) incl. enclosing '
                   'transformation and constant short-cut. The only hypotheses are the executable guards of the two '
                   'known findings (ParallelChannelPT under a transformation: C01_denotes_refuted; table with a triple '
-                  'final time point: C01_table_final_refuted) plus the exclusion of zero-length linear segments. '
+                  'final time point: C01_table_final_refuted) plus the exclusion of zero-length linear segments and of '
+                  'FunctionPT with non-positive duration. '
                   'to_waveform + get_sampled = the program meaning is proved for all well-formed program trees '
                   '(C01_sampling_loops) and for create_program outputs (C01_sampling_partial). The model is tied to '
-                  '/repo by an exact correspondence check (12 node kinds; get_sampled and plotting.render samples on '
+                  '/repo by an exact correspondence check (13 node kinds; get_sampled and plotting.render samples on '
                   'junction-aligned and off-grid points), and the denotation is evaluated directly on the '
                   'implementation as the specification oracle.',
     'level_note': '_partial: C01_sampling_partial assumes that to_waveform succeeds and that all leaves define one '
                   'channel set (guaranteed by qupulse constructors, not by the model). Open: error correspondence '
                   '(C01_errors_statement is false as stated: eager scope evaluation in ArithmeticPT, non-injective '
-                  'channel mappings). Not modelled: FunctionPT, time-dependent transformation values, '
+                  'channel mappings). Not modelled: non-affine FunctionPT expressions (the affine FunctionWaveform is '
+                  'represented by the observationally equal linear table), time-dependent transformation values, '
                   'to_single_waveform, measurements, constraints, volatile parameters. Float rounding is modelled away '
                   '(dyadic inputs). Trusted: Coq kernel, harness, numpy/sympy on the generated domain.',
     'technique': 'Coq proof by induction on the template tree over an operational model + exact correspondence check '
